@@ -8,7 +8,8 @@ use serde_json::{json, Value};
 
 include!(concat!(env!("VERIF_GEN_DIR"), "/sentences.rs"));
 
-fn secs(t: i64) -> f32 { t as f32 / 1000.0 }
+/// Grammar.tla counts time in ticks of half a millisecond (TPM = 2)
+fn secs(t: i64) -> f32 { t as f32 / 2000.0 }
 
 fn same_meta(a: &dyn Timeline<Target = P4>, b: &dyn Timeline<Target = P4>) -> bool {
     a.delay().to_bits() == b.delay().to_bits() && a.duration().to_bits() == b.duration().to_bits() && a.repeat() == b.repeat()
@@ -21,6 +22,7 @@ fn main() {
     let args: Vec<String> = std::env::args().collect();
     let lines = harness::read_lines(&args[1]);
     assert_eq!(lines.len(), N, "generated program and REPLAY file differ");
+    assert!(lines.iter().all(|l| l["tpm"] == 2), "tick length of the specification differs from the harness");
     let pmap = vec![1usize, 2, 3, 4];
     let mut tally = Tally::new();
     for i in 0..N {
@@ -36,7 +38,7 @@ fn main() {
                 let (mut x, mut y) = (SENT.clone(), SENT.clone());
                 m.update(&mut x, time); b.update(&mut y, time);
                 t.evals += 1;
-                if x.bits() != y.bits() { t.miss(json!({"line": i, "class": "twin-value", "t_ms": ts, "macro": x.bits(), "builder": y.bits(), "args": line["args"]})); break; }
+                if x.bits() != y.bits() { t.miss(json!({"line": i, "class": "twin-value", "t_ticks": ts, "macro": x.bits(), "builder": y.bits(), "args": line["args"]})); break; }
             }
             // macro == specification's reading
             check_timeline(&mut t, i, 0, line, &m, &secs, &[1, 2, 3, 4]);
@@ -54,7 +56,7 @@ fn main() {
             let (mut x, mut y) = (SENT.clone(), SENT.clone());
             m.update(&mut x, secs(t)); b.update(&mut y, secs(t));
             tally.evals += 1;
-            if x.bits() != y.bits() { tally.miss(json!({"merged": j, "class": "twin-value", "t_ms": t, "members": merged_members(j)})); break; }
+            if x.bits() != y.bits() { tally.miss(json!({"merged": j, "class": "twin-value", "t_ticks": t, "members": merged_members(j)})); break; }
         }
         // the merged list is the ordered overlay of its members (spec: EvalMerged) - members applied in order
         let mut z = SENT.clone();
